@@ -101,6 +101,10 @@ def remove_cases(draw):
         "remove": draw(st.lists(st.sampled_from(ids), min_size=1, max_size=k, unique=True)),
         "remove_reactions": draw(st.booleans()),
         "by": draw(st.sampled_from(["id", "obj"])),
+        # query every rule object (symbolic form, ==, eval) before it is rewritten in place
+        "warm": draw(st.booleans()),
+        # afterwards rename one of the remaining genes (to a new identifier, or onto another remaining gene)
+        "rename": draw(st.one_of(st.none(), st.tuples(st.integers(0, 5), st.integers(0, 6)))),
     }
 
 
@@ -209,6 +213,35 @@ def check_rule(case, ctx):
     return {"nontrivial": nontrivial, "classes": sorted(classes)}
 
 
+def live_rule_checks(gpr, tree, what, old_tree=None):
+    """The relations of the statement for a rule object that lives in a reaction and may have been rewritten in place:
+    its own function, its text and symbolic round trips, copies, and == against the reparsed text / the former rule."""
+    from cobra.core.gene import GPR
+
+    text = gpr.to_string()
+    same_function(gpr, tree, what, text)
+    for label, fn in (("to_string-from_string", lambda: GPR.from_string(gpr.to_string())), ("copy", gpr.copy),
+                      ("deepcopy", lambda: copy.deepcopy(gpr)), ("symbolic", lambda: GPR.from_symbolic(gpr.as_symbolic()))):
+        try:
+            g2 = fn()
+        except Exception as e:  # noqa: BLE001
+            _bad(f"{what}:{label}:raised", f"{label} of the rule {text!r} raised {type(e).__name__}: {e}")
+        same_function(g2, tree, f"{what}:{label}", text)
+        for a, b, side in ((g2, gpr, "left"), (gpr, g2, "right")):
+            try:
+                eq = a == b
+            except Exception as e:  # noqa: BLE001
+                _bad(f"{what}:{label}:eq-raised", f"comparing {label} of {text!r} with the rule raised {type(e).__name__}: {e}")
+            if eq is not True:
+                _bad(f"{what}:{label}:not-equal", f"{label} of the rule {text!r} does not compare equal to it ({side} operand; {g2.to_string()!r})")
+    if old_tree is not None:
+        union = sorted(gprtree.leaves(tree) | gprtree.leaves(old_tree))
+        if gprtree.table(tree, union) != gprtree.table(old_tree, union):
+            old = GPR.from_string(gprtree.render(old_tree))
+            if (gpr == old) is True or (old == gpr) is True:
+                _bad(f"{what}:eq-unsound", f"the rule {text!r} compares equal to its former version {gprtree.render(old_tree)!r} although they differ as Boolean functions")
+
+
 def check_remove(case, ctx):
     from cobra import Model, Reaction
     from cobra.manipulation import remove_genes
@@ -226,6 +259,11 @@ def check_remove(case, ctx):
     if not present:
         return {"nontrivial": False, "classes": ["remove-none-present"]}
     arg = present if case["by"] == "id" else [m.genes.get_by_id(g) for g in present]
+    if case.get("warm"):
+        for r, tree in zip(rx, case["rules"]):
+            if tree is not None:
+                live_rule_checks(r.gpr, tree, "before-rewrite")
+                r.functional
     try:
         remove_genes(m, arg, remove_reactions=case["remove_reactions"])
     except Exception as e:  # noqa: BLE001
@@ -258,9 +296,36 @@ def check_remove(case, ctx):
                 _bad("remove_genes:gene-left-in-rule", f"{rid}: removed gene {g!r} still in rule {r.gene_reaction_rule!r} / genes {sorted(x.id for x in r.genes)}")
         if gprtree.leaves(tree) & absent:
             interesting = True
+            live_rule_checks(r.gpr, new, "after-remove_genes", old_tree=tree)
     for g in present:
         if g in m.genes:
             _bad("remove_genes:gene-left-in-model", f"removed gene {g!r} is still in model.genes")
+    if case.get("warm"):
+        classes.add("~rules-queried-before-rewrite")
+    if case.get("rename") is not None and len(m.genes):
+        from cobra.manipulation import rename_genes
+
+        gids = sorted(g.id for g in m.genes)
+        old_id = gids[case["rename"][0] % len(gids)]
+        new_id = (gids + ["renamed.1"])[case["rename"][1] % (len(gids) + 1)]
+        if new_id != old_id:
+            current = {}
+            for i, tree in enumerate(case["rules"]):
+                if tree is not None and f"R{i}" in m.reactions:
+                    t = gprtree.restrict(tree, absent)
+                    if t is not False:
+                        current[f"R{i}"] = t
+            rename_genes(m, {old_id: new_id})
+
+            def ren(t):
+                if isinstance(t, str):
+                    return new_id if t == old_id else t
+                return [t[0], *[ren(x) for x in t[1:]]]
+
+            for rid, t in current.items():
+                if old_id in gprtree.leaves(t):
+                    live_rule_checks(m.reactions.get_by_id(rid).gpr, ren(t), "after-rename_genes", old_tree=t)
+                    classes.add("~rule-renamed-in-place")
     from vfw import observe
 
     observe.audit_crossrefs(m, "remove_genes")
